@@ -155,6 +155,14 @@ PSCEN = [
     # damaged program files: load, then everything that walks the program
     ['LOAD "BAD1.BAS"', 'LIST', 'SAVE "Z9",A', 'LLIST', 'RENUM', 'RUN', 'EDIT 10', '@interact'],
     ['LOAD "BAD3.BAS"', 'LIST', 'DELETE 10', 'SAVE "Z9",A', 'MERGE "BAD2.BAS"', 'LIST', 'CHAIN "BAD4.BAS"'],
+    ['LOAD "BAD2.BAS"', 'DELETE 20', 'LIST', '15 REM x', 'LIST', 'DELETE 10-25', 'RENUM', 'LIST', 'RUN', 'EDIT 30', '@interact'],
+    ['LOAD "BAD4.BAS"', 'DELETE 10', 'LIST', 'DELETE 30', 'LIST 20-', '5 REM', 'LIST', 'SAVE "Z8"', 'LOAD "Z8"', 'LIST'],
+    # loop counters that overflow
+    ['FOR I=1E38 TO 1.7E38 STEP 1E38:NEXT', 'FOR D#=1D38 TO 1.7D38 STEP 1.7D38:NEXT', 'FOR I%=32000 TO 32767 STEP 700:NEXT',
+     'FOR I={n} TO {n} STEP {n}:NEXT', '10 ON ERROR GOTO 40', '20 FOR I=-1E38 TO -1.7E38 STEP -1E38:NEXT:PRINT "a"', '30 END', '40 RESUME NEXT', 'RUN'],
+    # every byte of the BIOS data area, in whatever video mode we are in
+    ['SCREEN {n}', 'DEF SEG=0:FOR A=1024 TO 1300:X=PEEK(A):NEXT', 'FOR A=0 TO 130:X=PEEK(A):NEXT', 'WIDTH {n}',
+     'FOR A=1024 TO 1300:X=PEEK(A):NEXT', 'DEF SEG'],
     # memory blocks at the edges of the address space
     ['DEF SEG=&HFFFF', 'BSAVE "M.BIN",0,100', 'BLOAD "M.BIN",0', 'DEF SEG={n}', 'BSAVE "M.BIN",{n},{n}', 'BLOAD "M.BIN",{n}', 'BLOAD "M.BIN"', 'DEF SEG'],
     # sound that never ends by itself, across a restart and a checkpoint
@@ -204,7 +212,7 @@ def gen(rng, tier, prop):
     n = rng.randint(8, 45 if tier == 'quick' else 200)
     faulty = rng.random() < 0.6
     ops = []
-    for k, kind in enumerate(['empty', 'ff', 'fe', 'fe1', 'fc', 'text', 'torn', 'cutnum']):
+    for k, kind in enumerate(['empty', 'ff', 'fe', 'fe1', 'fc', 'text', 'torn', 'cutnum', 'unordered']):
         if rng.random() < 0.5:
             ops.append({'op': 'mkfile', 'name': 'BAD%d.BAS' % (rng.randint(1, 4)), 'kind': kind,
                         'bytes': ''.join(chr(rng.randrange(256)) for _ in range(rng.choice([0, 1, 2, 3, 17, 200])))})
@@ -334,6 +342,16 @@ def _mkfile(root, op):
         data = b'10 PRINT 1\r\nPRINT 2\r\n70000 X\r\n20 ' + data.replace(b'\r', b'').replace(b'\n', b'') + b'\r\n\x1a'
     elif kind == 'torn':
         data = b'\xff\x7a\x12\x0a\x00\x91\x20\x22' + data
+    elif kind == 'unordered':
+        # a well-formed tokenised program whose line numbers are not in order (a hand-made file)
+        import struct as _st
+        nums = [[30, 10, 20], [10, 30, 20, 25], [65529, 5, 5], [20, 10]][len(data) % 4]
+        body, addr = b'', 0x1234
+        for n in nums:
+            ln = b'\x91 "L%d"' % n
+            addr += 5 + len(ln)
+            body += _st.pack('<HH', addr, n) + ln + b'\0'
+        data = b'\xff' + body + b'\0\0\x1a'
     elif kind == 'cutnum':
         # a tokenised program cut off in the middle of a number token
         lead = [b'\x1c\x01', b'\x1d\x00\x00', b'\x1f\x00\x00\x00', b'\x0f', b'\x0e\x10', b'\x0b', b'\x0c\x01', b'\x1c'][len(data) % 8]
@@ -488,6 +506,9 @@ def run(case):
                         d.close()
                     except EngineCrash:
                         raise
+                    # the harness's own directory calls must not run into a fault that is still armed
+                    fs.disarm()
+                    del armed[:]
                     d = new_driver()
                     run.probe('normal_exits')
             fs.disarm()
